@@ -208,6 +208,11 @@ fn flag_sets(tier: Tier) -> Vec<PFlags> {
             PFlags { word: true, multiline: true, ..d.clone() },
             PFlags { crlf: true, word: true, ..d.clone() },
             PFlags { whole_line: true, invert: true, ..d.clone() },
+            PFlags { ignore_case: true, word: true, ..d.clone() },
+            PFlags { whole_line: true, multiline: true, ..d.clone() },
+            PFlags { invert: true, crlf: true, ..d.clone() },
+            PFlags { invert: true, max_count: Some(2), ..d.clone() },
+            PFlags { multiline: true, max_count: Some(2), ..d.clone() },
         ]);
     }
     v
@@ -220,7 +225,7 @@ pub fn run(args: &Args) -> ! {
     let tier = args.tier;
     let mut ev = Evidence::new(args, "exploration");
     let mut verdict = Verdict::new("C10");
-    let maxlen = tier.pick(5, 6);
+    let maxlen = tier.pick(5, 7);
     let al = [b'a', b'b', b'-', b'\n'];
     let n = seq_count(al.len(), maxlen);
     let mut idx = vec![];
